@@ -111,12 +111,23 @@ from ..uflsem import as_T, equal_T  # noqa: E402
 MOD = "ufl.algorithms.apply_derivatives"
 
 
-def make_ruleset(ctx, name, init_args, gdim, tdim):
+DOMAIN_KINDS = {
+    # kind: (coordinate degree, simplex cell, geometry is constant on each cell)
+    "affine simplex": (1, True, True),
+    "degree-1 non-simplex (multilinear map)": (1, False, False),
+    "degree-2 simplex": (2, True, False),
+}
+
+
+def make_ruleset(ctx, name, init_args, gdim, tdim, kind="affine simplex"):
     """Harness whose `self` is produced by lifting the ruleset's own __init__."""
     from .c02 import Harness
 
     H = Harness(ctx, name, (), gdim=gdim, tdim=tdim)
-    dom = Obj("domain", geometric_dimension=gdim, topological_dimension=tdim)
+    deg, simplex, const = DOMAIN_KINDS[kind]
+    cel = Obj("coordinate element", embedded_superdegree=deg, embedded_subdegree=deg, pullback=Obj("pullback", is_identity=True))
+    ucell = Obj("cell", is_simplex=lambda: simplex, topological_dimension=tdim)
+    dom = Obj("domain", geometric_dimension=gdim, topological_dimension=tdim, ufl_coordinate_element=lambda: cel, ufl_cell=lambda: ucell, is_piecewise_linear_simplex_domain=lambda: const)
     dom.attrs["__class__"] = None
     H.domain = dom
     ip = H.ip
@@ -198,6 +209,23 @@ def terminal_rules(ctx, rep):
             expect("Coefficient", c, T.zero(shape + (gdim,)), f"grad(cell-wise constant coefficient of shape {shape}) = 0")
             a = terminal("a", shape, "Argument", cellwise_constant=False)
             expect("Argument", a, uflmodel.grad_named(a, gdim, "d"), f"grad(argument of shape {shape}) = Grad(a)")
+        # the geometry of the cell map is constant on a cell only for affine simplices: every way the rules decide
+        # "constant" must agree with that on all three kinds of domain (the terminal's own answer is the oracle)
+        for kind, (deg, simplex, const) in DOMAIN_KINDS.items():
+            Hk = make_ruleset(ctx, "GradRuleset", [gdim], gdim, tdim, kind)
+            for tname, shape in (("JacobianInverse", (tdim, gdim)), ("Jacobian", (gdim, tdim)), ("JacobianDeterminant", ()), ("FacetNormal", (gdim,)), ("CellVolume", ())):
+                o = terminal("q", shape, tname, cellwise_constant=const)
+                if tname == "JacobianInverse":
+                    o = Hk.K  # the rule uses the operand itself as the inverse Jacobian
+                    o.tags["cellwise_constant"] = const
+                want = T.zero(shape + (gdim,)) if const else rgrad_oracle(o, Hk.K, gdim, tdim)
+                h = Hk.handler(tname)
+                try:
+                    got = Hk.ip.call_function(h.func, [o], {}, self_obj=Hk.selfobj)
+                except LiftRaise as e:
+                    rep.violation(rule + "/" + tname, h.func, f"grad({tname}) on a {kind} mesh", f"grad({tname}) on a {kind} mesh raises {e.what[:100]}")
+                    continue
+                cmp(rep, rule + "/" + tname, h, f"grad({tname}) on a {kind} mesh is {'0' if const else 'the K^T-transformed reference gradient'} [gdim={gdim}, tdim={tdim}]", got, want, ctx)
         # generic geometric quantity: constant -> 0; else K_ji rgrad_rj
         g = terminal("n", (gdim,), "FacetNormal", cellwise_constant=True)
         expect("FacetNormal", g, T.zero((gdim, gdim)), "grad(cell-wise constant geometric quantity) = 0")
